@@ -227,42 +227,61 @@ def load_lib(so):
     return lib
 
 
-def native_call(so, fname, world, values, args, restype='void', outputs=(), timeout=60, pre=None):
-    """Call the real function in a child process.
-    args: list of ('i32', value|z3) | ('f64', ...) | ('ptr', (WObj, off) | None)
-    outputs: list of (label, WObj, off, ty). Returns (status, {'ret':..., 'out': {label: value}, 'canaries': [...]})"""
+_RT = None
+
+
+def _restype(restype):
+    return {'void': None, 'i32': ctypes.c_int32, 'i64': ctypes.c_int64, 'u64': ctypes.c_uint64, 'f64': ctypes.c_double, 'ptr': ctypes.c_void_p,
+            'u8': ctypes.c_uint8, 'i8': ctypes.c_int8, 'f32': ctypes.c_float, 'u32': ctypes.c_uint32}[restype]
+
+
+def _cargs(nw, args):
+    cargs = []
+    for ty, v in args:
+        if ty == 'ptr': cargs.append(ctypes.c_void_p(nw._val('ptr', v)))
+        elif ty in ('f64',): cargs.append(ctypes.c_double(float(nw._val(ty, v))))
+        elif ty in ('f32',): cargs.append(ctypes.c_float(float(nw._val(ty, v))))
+        elif ty in ('i64', 'u64'): cargs.append(ctypes.c_uint64(int(nw._val(ty, v)) & (2**64 - 1)))
+        elif ty in ('i8', 'u8'): cargs.append(ctypes.c_uint8(int(nw._val(ty, v)) & 0xff))
+        else: cargs.append(ctypes.c_uint32(int(nw._val(ty, v)) & (2**32 - 1)))
+    return cargs
+
+
+def native_seq(so, calls, world, values, outputs=(), timeout=60, pre=None):
+    """Run a sequence of real calls [(fname, args, restype)] on one native instantiation of the world, in a child process."""
     def child():
         lib = load_lib(so)
         nw = NativeWorld(world, values)
-        f = getattr(lib, fname)
-        cargs = []
-        for ty, v in args:
-            if ty == 'ptr': cargs.append(ctypes.c_void_p(nw._val('ptr', v)))
-            elif ty in ('f64',): cargs.append(ctypes.c_double(float(nw._val(ty, v))))
-            elif ty in ('f32',): cargs.append(ctypes.c_float(float(nw._val(ty, v))))
-            elif ty in ('i64', 'u64'): cargs.append(ctypes.c_uint64(int(nw._val(ty, v)) & (2**64 - 1)))
-            elif ty in ('i8', 'u8'): cargs.append(ctypes.c_uint8(int(nw._val(ty, v)) & 0xff))
-            else: cargs.append(ctypes.c_uint32(int(nw._val(ty, v)) & (2**32 - 1)))
-        f.restype = {'void': None, 'i32': ctypes.c_int32, 'i64': ctypes.c_int64, 'u64': ctypes.c_uint64, 'f64': ctypes.c_double, 'ptr': ctypes.c_void_p,
-                     'u8': ctypes.c_uint8, 'i8': ctypes.c_int8, 'f32': ctypes.c_float}[restype]
         if pre: pre(lib, nw)
-        ret = f(*cargs)
-        if restype in ('i32', 'i64', 'i8') and ret is not None: ret &= {'i32': 2**32 - 1, 'i64': 2**64 - 1, 'i8': 255}[restype]
+        rets = []
+        for fname, args, restype in calls:
+            f = getattr(lib, fname)
+            f.restype = _restype(restype)
+            ret = f(*_cargs(nw, args))
+            if restype in ('i32', 'i64', 'i8') and ret is not None: ret &= {'i32': 2**32 - 1, 'i64': 2**64 - 1, 'i8': 255}[restype]
+            if isinstance(ret, float) and (ret != ret or ret in (float('inf'), float('-inf'))): ret = repr(ret)
+            rets.append(ret)
         out = {}
         for label, o, off, ty in outputs:
             v = nw.read(o, off, ty)
             if isinstance(v, float) and (v != v or v in (float('inf'), float('-inf'))): v = repr(v)
             out[label] = v
-        res = {'ret': ret, 'out': out, 'canaries': nw.canaries_intact(), 'nwarn': lib.vf_get_nwarn()}
-        if restype == 'ptr':
-            # express returned pointer relative to world objects
-            res['ret_obj'] = None
+        res = {'ret': rets[-1] if rets else None, 'rets': rets, 'out': out, 'canaries': nw.canaries_intact(), 'nwarn': lib.vf_get_nwarn()}
+        if calls and calls[-1][2] == 'ptr':
+            ret = rets[-1]; res['ret_obj'] = None
             if ret:
                 for o in world.objs:
                     a = nw.addr(o)
                     if a <= ret <= a + o.size: res['ret_obj'] = [o.name, ret - a]
         return res
     return run_child(child, timeout)
+
+
+def native_call(so, fname, world, values, args, restype='void', outputs=(), timeout=60, pre=None):
+    """Call the real function in a child process.
+    args: list of ('i32', value|z3) | ('f64', ...) | ('ptr', (WObj, off) | None)
+    outputs: list of (label, WObj, off, ty). Returns (status, {'ret':..., 'out': {label: value}, 'canaries': [...]})"""
+    return native_seq(so, [(fname, args, restype)], world, values, outputs, timeout, pre)
 
 
 def close(a, b, semantics):
